@@ -6,6 +6,7 @@ import (
 	"container/list"
 	"fmt"
 	"reflect"
+	"sort"
 	"strings"
 	"testing"
 
@@ -119,7 +120,11 @@ func run(c gpack.Case) *pbt.Result {
 		return pbt.Fail("unknown pack type %q in case", c.Type)
 	}
 	gpack.ResetAux()
-	p := sp.Build(c.Stream(), 0)
+	return runBuilt(c, sp, sp.Build(c.Stream(), 0))
+}
+
+// runBuilt is the oracle of one pack that has already been built.
+func runBuilt(c gpack.Case, sp *gpack.Spec, p pack.Pack) *pbt.Result {
 	b := encode(sp, p)
 	normalizeInner(p)
 	if sp.Normalize != nil {
@@ -272,8 +277,28 @@ func recordsEqual(orig, got []interface{}, ignore func(string) bool) error {
 	if len(orig) != len(got) {
 		return fmt.Errorf("GetRecords returns %d records, %d were put in", len(got), len(orig))
 	}
+	// long lists repeat a few originals: their canonical form is computed once per distinct original
+	memo := map[interface{}][]rfl.KV{}
+	verified := map[interface{}]int{}
 	for i := range orig {
-		if d := rfl.Diff(rfl.Canon(orig[i], gpack.Hook), rfl.Canon(got[i], gpack.Hook), ignore); d != "" {
+		if reflect.DeepEqual(orig[i], got[i]) { // identical down to the unexported fields: equal, whatever is ignored
+			continue
+		}
+		isPtr := reflect.ValueOf(orig[i]).Kind() == reflect.Ptr
+		if j, seen := verified[orig[i]]; isPtr && seen && reflect.DeepEqual(got[i], got[j]) {
+			continue // same original as record j, and decoded identically to record j, which was compared in full
+		}
+		if isPtr {
+			verified[orig[i]] = i
+		}
+		co, ok := memo[orig[i]]
+		if !ok {
+			co = rfl.Canon(orig[i], gpack.Hook)
+			if reflect.ValueOf(orig[i]).Kind() == reflect.Ptr {
+				memo[orig[i]] = co
+			}
+		}
+		if d := rfl.Diff(co, rfl.Canon(got[i], gpack.Hook), ignore); d != "" {
 			return fmt.Errorf("record %d differs: %s", i, d)
 		}
 	}
@@ -363,7 +388,7 @@ func containerChecks(sp *gpack.Spec, p, q pack.Pack) error {
 			return fmt.Errorf("RecordCount=%d, %d records put in", qq.RecordCount, len(aux.Records))
 		}
 		in := wio.NewDataInputX(qq.Records)
-		n := int(in.ReadShort())
+		n := int(in.ReadShort()) & 0xffff // the record counter is an unsigned 16-bit field
 		var got []interface{}
 		for i := 0; i < n; i++ {
 			got = append(got, pack.ReadRec(in))
@@ -386,12 +411,44 @@ func containerChecks(sp *gpack.Spec, p, q pack.Pack) error {
 	return nil
 }
 
+// typeNames: every type entry except the record-list packs with tens of thousands of records (own test below).
 func typeNames() []string {
 	var out []string
 	for _, sp := range gpack.Specs {
+		if isLargeRecordType(sp.Name) {
+			continue
+		}
 		out = append(out, sp.Name)
 	}
 	return out
+}
+
+func isLargeRecordType(name string) bool {
+	for _, n := range gpack.LargeRecordTypes {
+		if name == n+"/large" {
+			return true
+		}
+	}
+	return false
+}
+
+// Record-list packs holding 32767 / 32768 / 32769..62768 / 65535 records: the record counter inside the
+// record blob is 16 bits wide, every reader has to take it as unsigned.
+func TestLargeRecordLists(t *testing.T) {
+	shard, nshards := pbt.Shard()
+	k := 0
+	for _, name := range gpack.LargeRecordTypes {
+		name := name
+		t.Run(name, func(t *testing.T) {
+			for seed := uint64(1); seed <= uint64(pbt.Pick(4, 48)); seed++ {
+				k++
+				if k%nshards != shard { // the cases are spread over the shards
+					continue
+				}
+				specRT.RunCase(t, gpack.Case{Type: name + "/large", Seed: seed*15485863 + uint64(pbt.Seed()), Len: 300})
+			}
+		})
+	}
 }
 
 func drawCase(t *rapid.T, names []string) gpack.Case {
@@ -410,6 +467,125 @@ var specRT = pbt.Register(pbt.Spec[gpack.Case]{
 })
 
 func TestPackRoundTrip(t *testing.T) { specRT.Check(t) }
+
+// ---- several packs alive at the same time --------------------------------------------------
+
+// SeqCase: all packs are built first, then each is encoded, decoded and compared. A pack must not
+// share state with a pack built, encoded or decoded after it (reused buffers, pooled encoders).
+type SeqCase struct {
+	Packs []gpack.Case `json:"packs"`
+	Order []int        `json:"order,omitempty"` // order in which the built packs are checked (indices mod len)
+}
+
+func runSeq(c SeqCase) *pbt.Result {
+	gpack.ResetAux()
+	var ps []pack.Pack
+	var sps []*gpack.Spec
+	for _, pc := range c.Packs {
+		sp := gpack.ByName[pc.Type]
+		if sp == nil {
+			return pbt.Fail("unknown pack type %q in case", pc.Type)
+		}
+		sps = append(sps, sp)
+		ps = append(ps, sp.Build(pc.Stream(), 0))
+	}
+	// first encodings, taken right after all packs exist; compared again at the end
+	var first, held [][]byte
+	for i := range ps {
+		if sps[i].Normalize != nil { // encodings of these are only defined up to the documented normalisation
+			first, held = append(first, nil), append(held, nil)
+			continue
+		}
+		// held: the slice exactly as ToBytesPack returned it (a caller keeps it until it is sent); first: a private copy
+		var h []byte
+		if sps[i].Registered {
+			h = pack.ToBytesPack(ps[i])
+		}
+		held = append(held, h)
+		first = append(first, encode(sps[i], ps[i]))
+		if h != nil && !bytes.Equal(h, first[i]) {
+			return pbt.Fail("pack %d (%s): two consecutive encodings differ", i, c.Packs[i].Type)
+		}
+	}
+	order := c.Order
+	if len(order) == 0 {
+		for i := range ps {
+			order = append(order, i)
+		}
+	}
+	classes := map[string]bool{}
+	containers := 0
+	for _, oi := range order {
+		i := oi % len(ps)
+		r := runBuilt(c.Packs[i], sps[i], ps[i])
+		if r.Err != nil {
+			return pbt.Fail("pack %d of %d alive together (types %v): %v", i, len(ps), typesOf(c.Packs), r.Err)
+		}
+		classes["type="+c.Packs[i].Type] = true
+		switch c.Packs[i].Type {
+		case "LogSinkZipPack", "ZipPack", "CompositePack", "LogSinkZipPack/large", "ZipPack/large":
+			containers++
+		}
+	}
+	for i := range ps {
+		if held[i] != nil && !bytes.Equal(held[i], first[i]) {
+			return pbt.Fail("pack %d (%s): the %d bytes returned by ToBytesPack changed while other packs were encoded and decoded (types %v)", i, c.Packs[i].Type, len(held[i]), typesOf(c.Packs))
+		}
+		if first[i] != nil {
+			if now := encode(sps[i], ps[i]); !bytes.Equal(now, first[i]) {
+				return pbt.Fail("pack %d (%s): its encoding changed (%d -> %d bytes) while other packs were encoded and decoded (types %v)", i, c.Packs[i].Type, len(first[i]), len(now), typesOf(c.Packs))
+			}
+		}
+	}
+	var cl []string
+	for k := range classes {
+		cl = append(cl, k)
+	}
+	sort.Strings(cl)
+	if containers >= 2 {
+		cl = append(cl, "two-or-more-containers")
+	}
+	return &pbt.Result{NT: containers >= 2, Classes: cl}
+}
+
+func typesOf(cs []gpack.Case) []string {
+	var out []string
+	for _, c := range cs {
+		out = append(out, c.Type)
+	}
+	return out
+}
+
+var seqTypes = []string{"LogSinkZipPack", "LogSinkZipPack", "ZipPack", "CompositePack", "LogSinkPack", "TagCountPack", "ProfilePack", "CounterPack1", "TextPack", "StatSqlPack"}
+
+var specSeq = pbt.Register(pbt.Spec[SeqCase]{
+	Prop: "C03", Name: "packs-alive-together",
+	Rule:  "2-4 packs (containers twice as likely as the other types) are all BUILT first (compression of container payloads happens at build time), then checked with the full single-pack oracle in a generated order (a pack may be checked twice), and finally every pack's encoding, and the byte slice ToBytesPack returned at the start, are compared with the encoding taken before any decoding; a pack must not share state with packs built, encoded or decoded after it; non-trivial = at least two container packs in the case; distinct by case",
+	Quick: 1200, Thorough: 60000,
+	Draw: func(t *rapid.T) SeqCase {
+		var c SeqCase
+		n := rapid.IntRange(2, 4).Draw(t, "npacks")
+		for i := 0; i < n; i++ {
+			names := seqTypes
+			if rapid.IntRange(0, 3).Draw(t, "any") == 0 {
+				names = typeNames()
+			}
+			pc := drawCase(t, names)
+			if strings.HasSuffix(pc.Type, "/large") {
+				pc.Type = strings.TrimSuffix(pc.Type, "/large")
+			}
+			c.Packs = append(c.Packs, pc)
+		}
+		m := rapid.IntRange(n, n+2).Draw(t, "nchecks")
+		for i := 0; i < m; i++ {
+			c.Order = append(c.Order, rapid.IntRange(0, n-1).Draw(t, "idx"))
+		}
+		return c
+	},
+	Run: runSeq,
+})
+
+func TestPacksAliveTogether(t *testing.T) { specSeq.Check(t) }
 
 // Every type at a few fixed stream shapes, so that no type depends on the random type choice.
 func TestEveryType(t *testing.T) {
